@@ -37,6 +37,7 @@ type Value struct {
 	Elems     []Value
 	Keys      []string
 	Unordered bool // VObj derived from a Go map: member order is not significant
+	Opt       []bool // VObj (reference side only): member i may be present or absent
 	Len       int  // announced length
 	BT        structform.BaseType
 
@@ -271,7 +272,7 @@ func Equal(want, got Value, m Mode) bool {
 		}
 		return true
 	case VObj:
-		if len(want.Elems) != len(got.Elems) {
+		if len(want.Elems) != len(got.Elems) && len(want.Opt) == 0 {
 			return false
 		}
 		wi, gi := identity(len(want.Elems)), identity(len(got.Elems))
@@ -283,19 +284,30 @@ func Equal(want, got Value, m Mode) bool {
 			sort.SliceStable(wi, func(a, b int) bool { return wk[wi[a]] < wk[wi[b]] })
 			sort.SliceStable(gi, func(a, b int) bool { return gk[gi[a]] < gk[gi[b]] })
 		}
-		for i := range wi {
-			wk, gk := want.Keys[wi[i]], got.Keys[gi[i]]
+		var match func(i, j int) bool
+		match = func(i, j int) bool {
+			if i == len(wi) {
+				return j == len(gi)
+			}
+			wk := want.Keys[wi[i]]
 			if m == JSON {
 				wk = ToValidUTF8(wk)
 			}
-			if wk != gk || !Equal(want.Elems[wi[i]], got.Elems[gi[i]], m) {
-				return false
+			if j < len(gi) && wk == got.Keys[gi[j]] && Equal(want.Elems[wi[i]], got.Elems[gi[j]], m) && match(i+1, j+1) {
+				return true
 			}
+			if wi[i] < len(want.Opt) && want.Opt[wi[i]] {
+				return match(i+1, j) // optional member absent
+			}
+			return false
 		}
-		return true
+		return match(0, 0)
 	}
 	return false
 }
+
+func f32bits(f float32) uint32 { return math.Float32bits(f) }
+func f64bits(f float64) uint64 { return math.Float64bits(f) }
 
 func validKeys(ks []string) []string {
 	out := make([]string, len(ks))
